@@ -16,6 +16,7 @@ EXPLANATION = (
     "mixture of two sections of one operation; (LOCK-5) each lock impl acquires exactly once, with a blocking "
     "acquisition (read/write/lock/borrow*, never try_*), and drops the guard on the normal and on the unwind path."
     ' LOCK-7: all-or-nothing data-set updates - in a function that writes the data sets no exit decided by a value computed after the first write (an error path) lies between two of its writes.'
+    ' LOCK-8 (= C11 ANN-2): the S1 and M1/M2 rewrites assign every field of the group they replace (completeness of an update applied under the lock).'
 )
 NOT_DECIDED = ("Behaviour of host-provided lock/clock/filter implementations (assumed not to re-enter the instance); "
                "fairness / progress of the host's lock.")
